@@ -220,7 +220,13 @@ def oracle(ctx, res):
                  dict(key_length=kl, message_length=48), dict(key_length=kl, cipher_length=48),
                  dict(key_length=kl, message_length=16, cipher_length=48), dict(key_length=kl, cipher_length=64)]
         rng.shuffle(decls)
-        insts = [(d, AESxCBC(**d)) for d in decls]
+        insts = []
+        for d in decls:
+            try:
+                insts.append((d, AESxCBC(**d)))
+            except Exception as e:
+                # every declaration of the list is consistent (a 16-byte message has a 48-byte ciphertext: IV + two blocks)
+                viol("a consistent length declaration is refused at construction", f"AESxCBC(**{d}) raised {type(e).__name__}: {e}", {"declared": d})
         plain = AESxCBC(key_length=kl)
         key = rb(rng, kl)
         for d, inst in insts:
